@@ -119,8 +119,10 @@ func (s *vbShape) Write(ctx context.Context, p thrift.TProtocol) error {
 	}
 	return p.WriteStructEnd(ctx)
 }
-func (s *vbShape) Read(ctx context.Context, p thrift.TProtocol) error { return p.Skip(ctx, thrift.STRUCT) }
-func (s *vbShape) String() string                                     { return "vbShape" }
+func (s *vbShape) Read(ctx context.Context, p thrift.TProtocol) error {
+	return p.Skip(ctx, thrift.STRUCT)
+}
+func (s *vbShape) String() string { return "vbShape" }
 
 var vbShapeNames = []string{"string-first", "string-middle", "string-last", "binary", "list", "many-small", "trailing-bool", "string-last-bool"}
 
@@ -232,10 +234,10 @@ func vbMeasure(proto string, args thrift.TStruct) int {
 }
 
 type vbC12Res struct {
-	Cases      int64       `json:"cases"`
-	Nontrivial int64       `json:"nontrivial"`
-	Findings   []vbFinding `json:"findings"`
-	Samples    []string    `json:"samples"`
+	Cases      int64            `json:"cases"`
+	Nontrivial int64            `json:"nontrivial"`
+	Findings   []vbFinding      `json:"findings"`
+	Samples    []string         `json:"samples"`
 	ByKind     map[string]int64 `json:"cases_by_kind"`
 	seen       map[string]bool
 }
